@@ -39,8 +39,8 @@ Section C09.
 
   (* label_format, unwrap, drop, by/without: every entry is rewritten by the same function whatever the batching *)
   Theorem batching_invariant_label_format : forall c fs bs,
-    List.concat (run_stage c (SLabelFormat V fs) bs) = map (label_format_g V fs) (List.concat bs).
-  Proof. intros. cbn [InternalEngine.run_stage]. rewrite (wrap_map_total V v0 panic_kills _ _ (label_format_total V fs)). apply concat_map_map. Qed.
+    List.concat (run_stage c (SLabelFormat V fs) bs) = map (label_format_g V fpf fs) (List.concat bs).
+  Proof. intros. cbn [InternalEngine.run_stage]. rewrite (wrap_map_total V v0 panic_kills _ _ (label_format_total V fpf fs)). apply concat_map_map. Qed.
 
   Theorem batching_invariant_unwrap : forall c label bs,
     List.concat (run_stage c (SUnwrap V label) bs) = map (unwrap_g V pfloat label) (List.concat bs).
@@ -60,14 +60,11 @@ Section C09.
     List.concat (run_stage c (SLineFormat V id) bs) = flat_map (lf_one V tmpl id) (List.concat bs).
   Proof. intros. cbn [InternalEngine.run_stage]. rewrite wrap_line_format. apply concat_map_flat_map. Qed.
 
-  (* json / logfmt: a line that does not decode fails the request (or kills the process) whatever the batching; otherwise
-     every entry is rewritten.  What the client experiences (crash / failure / result) is the same for every batching.     *)
-  Theorem batching_invariant_parser : forall c id bs, no_crash_in V bs ->
-    outcome_of V (run_stage c (SParser V id) bs) = outcome_of V (run_stage c (SParser V id) [List.concat bs]).
-  Proof.
-    intros c id bs H. cbn [InternalEngine.run_stage].
-    apply (map_stage_outcome V v0 panic_kills (parser_f V fpf parse id)); [apply parser_f_err|apply parser_f_fail|exact H].
-  Qed.
+  (* json / logfmt (after the fix: a line that does not decode keeps its labels instead of failing the request): every entry
+     is rewritten by the same function whatever the batching *)
+  Theorem batching_invariant_parser : forall c id bs,
+    List.concat (run_stage c (SParser V id) bs) = map (parser_g V fpf parse id) (List.concat bs).
+  Proof. intros. cbn [InternalEngine.run_stage]. rewrite (wrap_map_total V v0 panic_kills _ _ (parser_total V fpf parse id)). apply concat_map_map. Qed.
 
   (* limit: the first `limit` entries of the flat input for every batching; 0 = no limit.  sem_limit is also what the
      ClickHouse path does with ctx.Limit (no LIMIT clause for 0, LIMIT n otherwise): the parameter means the same thing
@@ -94,7 +91,7 @@ Section C09.
   Proof. intros. cbn [InternalEngine.run_stage]. exact (wrap_optimizer V v0 panic_kills f bs [] 0 I eq_refl). Qed.
 
   (* stage_meets_definition, for every stage whose reference semantics is per entry or positional (line filter, label
-     filter, label_format, line_format, unwrap, drop, by/without, comparison, limit): on a stream of data rows followed
+     filter, json / logfmt, label_format, line_format, unwrap, drop, by/without, comparison, limit): on a stream of data rows followed
      by its terminator, in ANY batching, the stage sends the entries the reference semantics prescribes — same
      timestamps, label sets, lines and values in the same order (the fingerprint is not part of the definition) *)
   Theorem stage_meets_definition_simple_stages : forall c s rows t bs,
@@ -112,14 +109,6 @@ Section C09.
     Forall (data_row V) rows -> Forall (terminator V) t -> List.concat bs = rows ++ t ->
     map (erase V) (data_of V (List.concat (run_chain c ch bs))) = map (erase V) (sem_chain c ch (List.concat bs)).
   Proof. exact (chain_agrees V v0 v1 vadd vdiv vltb vleb veqb vofZ panic_kills fpf re_match pfloat parse tmpl). Qed.
-
-  (* the same with the split-point stage json / logfmt in front, when every line decodes *)
-  Theorem engines_agree_after_parser : forall c id ch rows t bs,
-    0 <= c_limit c -> forallb (simple_stage V) ch = true ->
-    Forall (data_row V) rows -> Forall (decodes V parse id) rows -> Forall (terminator V) t -> List.concat bs = rows ++ t ->
-    map (erase V) (data_of V (List.concat (run_chain c (SParser V id :: ch) bs))) =
-    map (erase V) (sem_chain c (SParser V id :: ch) (List.concat bs)).
-  Proof. exact (chain_agrees_parser_first V v0 v1 vadd vdiv vltb vleb veqb vofZ panic_kills fpf re_match pfloat parse tmpl). Qed.
 
   (* the bucket arrays of the aggregators (per-series arrays indexed by window): when the stage does not fail (fewer than
      2000 series), for EVERY batching and every interleaving of series and buckets, the entries sent under fingerprint f
@@ -156,14 +145,6 @@ Section C09.
     sem_buckets V v0 v1 vadd vdiv vltb vofZ fpf k c dur m (filter (fun e => lbls_eqb (lbl_of V e) m) (List.concat bs)) 0 (Z.to_nat (stream_len c dur)).
   Proof. exact (agg_meets_definition V v0 v1 vadd vdiv vltb vleb veqb vofZ panic_kills fpf re_match pfloat parse tmpl). Qed.
 
-  (* the partial statement for json / logfmt: under the guard that every line decodes, the stage meets its definition *)
-  Theorem stage_meets_definition_parser_partial : forall c id rows t bs,
-    0 <= c_limit c ->
-    Forall (data_row V) rows -> Forall (decodes V parse id) rows -> Forall (terminator V) t -> List.concat bs = rows ++ t ->
-    map (erase V) (data_of V (List.concat (run_chain c [SParser V id] bs))) = map (erase V) (sem_chain c [SParser V id] (List.concat bs)).
-  Proof.
-    intros c id rows t bs HL. exact (chain_agrees_parser_first V v0 v1 vadd vdiv vltb vleb veqb vofZ panic_kills fpf re_match pfloat parse tmpl c id [] rows t bs HL eq_refl).
-  Qed.
 End C09.
 
 Print Assumptions batching_invariant_line_filter.
@@ -180,10 +161,8 @@ Print Assumptions batching_invariant_aggregation.
 Print Assumptions batching_invariant_optimizer.
 Print Assumptions stage_meets_definition_simple_stages.
 Print Assumptions engines_agree.
-Print Assumptions engines_agree_after_parser.
 Print Assumptions aggregation_buckets.
 Print Assumptions stage_meets_definition_aggregation.
-Print Assumptions stage_meets_definition_parser_partial.
 
 (* hash.go: the fingerprint does not depend on the order in which Go ranges over the label map *)
 Theorem fingerprint_order_independent : forall (ch64 : string -> N) (m1 m2 : lbls),
@@ -264,4 +243,17 @@ Proof.
   - split; [eexists; eexists; vm_compute; reflexivity|]. split.
     + intros e [<-|[<-|[<-|[]]]]; reflexivity.
     + split; vm_compute; reflexivity.
+Qed.
+
+(* the hypotheses of the agreement theorems are met by a non-trivial stream: two rows of two series, an io.EOF
+   terminator, three batches one of which is empty, a chain with the json/logfmt stage in front *)
+Example agreement_hypotheses_met :
+  let r1 := {| e_ts := 1; e_fp := 7%N; e_lbl := Some [("app", "x")]%string; e_msg := "a=1"%string; e_val := 0; e_err := ENone |} in
+  let r2 := {| e_ts := 2; e_fp := 8%N; e_lbl := Some [("app", "y")]%string; e_msg := "a=2"%string; e_val := 0; e_err := ENone |} in
+  let eof := {| e_ts := 0; e_fp := 0%N; e_lbl := None; e_msg := EmptyString; e_val := 0; e_err := EEof |} in
+  let ch := [SParser Z 0%N; SLineFilter Z LfContains "a"%string; SLabelFormat Z [LFConst "k" "v"]%string; SLimit Z] in
+  Forall (data_row Z) [r1; r2] /\ Forall (terminator Z) [eof] /\
+  List.concat [[r1]; []; [r2; eof]] = [r1; r2] ++ [eof] /\ forallb (simple_stage Z) ch = true.
+Proof.
+  cbv zeta. repeat split; try (repeat constructor; try eexists; try reflexivity; try discriminate).
 Qed.
